@@ -189,8 +189,18 @@ class CFG:
             for lab in ("T", "F"):
                 # remove edges of t with label lab: is node still reachable?
                 if self._reach_without_edge(t, lab, node) is False:
-                    out.append((t.ast, lab))
+                    out.extend(self._split(t.ast, lab))
         return out
+
+    @staticmethod
+    def _split(test, lab):
+        """`A and B` known true gives A true and B true; `A or B` known false gives A false and B false; `not A` flips."""
+        if isinstance(test, ast.BoolOp) and ((isinstance(test.op, ast.And) and lab == "T") or (isinstance(test.op, ast.Or) and lab == "F")):
+            res = []
+            for v in test.values:
+                res.extend(CFG._split(v, lab))
+            return res
+        return [(test, lab)]
 
     def _reach_without_edge(self, t, lab, target):
         seen, stack = set(), [self.entry]
